@@ -1,6 +1,6 @@
 (* C09 — the cluster update is weight-preserving and reversible. *)
 From Coq Require Import List QArith ZArith NArith Bool Arith.
-From QmcV Require Import Model.Prog Model.Sse Model.Nav Model.Cluster Proofs.ProgLemmas Proofs.ClusterProofs.
+From QmcV Require Import Model.Prog Model.Sse Model.Nav Model.Cluster Model.ClusterValid Proofs.ProgLemmas Proofs.ClusterProofs Proofs.ClusterFlipProofs.
 Import ListNotations.
 
 (* whatever labelling and whatever flip outcomes: number, positions, bonds, variables and
@@ -33,3 +33,46 @@ Theorem C09_zero_probability_cluster_never_flips : forall probs acc j,
   (mass (fun fl : list bool => nth (length acc + j) fl false) (denote (draw_flips probs acc (fun f => Ret f))) == 0)%Q.
 Proof. exact draw_flips_zero. Qed.
 Print Assumptions C09_zero_probability_cluster_never_flips.
+
+(* For every labelling accepted by the executable validator [links_ok] (linked sides of consecutive
+   operators on a world line carry the same cluster label, periodically) and EVERY flip outcome:
+   the flipped configuration is again a consistent periodic world-line configuration. The validator
+   is evaluated on the decomposition of every configuration in the correspondence runs. *)
+Theorem C09_flip_keeps_worldline : forall sl st b flips,
+  vars_in_range (length st) sl = true -> links_ok sl b = true -> wf st sl = true ->
+  let '(sl', st') := apply_flips sl st b flips in wf st' sl' = true.
+Proof. exact cluster_flip_wf. Qed.
+Print Assumptions C09_flip_keeps_worldline.
+
+(* the product of matrix elements is identical before and after, when non-edge operators are
+   flip-symmetric (both sides flipped together: [sides_ok]) and cluster-edge operators are constant *)
+Theorem C09_flip_keeps_weight : forall H sl st b flips,
+  (forall o, In (Some o) sl -> is_edge o = false -> flip_sym H o) ->
+  (forall o, In (Some o) sl -> is_edge o = true -> edge_free H o) ->
+  sides_ok sl b = true ->
+  (weight_product H (fst (apply_flips sl st b flips)) == weight_product H sl)%Q.
+Proof. exact cluster_flip_weight. Qed.
+Print Assumptions C09_flip_keeps_weight.
+
+(* with symmetry-breaking operators: it suffices that their clusters are not flipped *)
+Theorem C09_flip_keeps_weight_with_broken_clusters : forall H sl st b flips,
+  (forall p o, get_op sl p = Some o ->
+     if is_edge o then edge_free H o
+     else flip_sym H o \/ (forall a, fst (bget b p) = Some a -> nth a flips false = false)) ->
+  sides_ok sl b = true ->
+  (weight_product H (fst (apply_flips sl st b flips)) == weight_product H sl)%Q.
+Proof. exact cluster_flip_weight_positional. Qed.
+Print Assumptions C09_flip_keeps_weight_with_broken_clusters.
+
+(* reversibility: applying the same flips again restores the configuration *)
+Theorem C09_flip_involutive : forall sl st b flips,
+  vars_in_range (length st) sl = true -> links_ok sl b = true -> wf st sl = true ->
+  let '(sl', st') := apply_flips sl st b flips in apply_flips sl' st' b flips = (sl, st).
+Proof. exact cluster_flip_involutive. Qed.
+Print Assumptions C09_flip_involutive.
+
+(* what the validator means in terms of navigation *)
+Theorem C09_validator_links : forall sl b v p k q k', links_ok sl b = true ->
+  In (p, k) (ops_on_var sl v) -> next_wrap sl p v = Some (q, k') -> snd (bget b p) = fst (bget b q).
+Proof. exact links_ok_next_wrap. Qed.
+Print Assumptions C09_validator_links.
